@@ -9,11 +9,13 @@ package c11
 import (
 	"crypto"
 	"encoding"
+	"reflect"
 	"testing"
 
 	"github.com/cloudflare/circl/dh/csidh"
 	"github.com/cloudflare/circl/group"
 	"github.com/cloudflare/circl/internal/zzverif/lib"
+	"github.com/cloudflare/circl/kem"
 	"github.com/cloudflare/circl/kem/frodo/frodo640shake"
 	"github.com/cloudflare/circl/kem/kyber/kyber768"
 	"github.com/cloudflare/circl/kem/mlkem/mlkem1024"
@@ -22,6 +24,7 @@ import (
 	"github.com/cloudflare/circl/math/polynomial"
 	"github.com/cloudflare/circl/oprf"
 	"github.com/cloudflare/circl/secretsharing"
+	"github.com/cloudflare/circl/sign"
 	"github.com/cloudflare/circl/sign/bls"
 	"github.com/cloudflare/circl/sign/dilithium/mode3"
 	"github.com/cloudflare/circl/sign/eddilithium2"
@@ -33,6 +36,51 @@ import (
 )
 
 const monReuse = "TestVerifReuse"
+
+// siblingProbe asks the key object (or the object inside an adapter) for its
+// Public() result and returns a function that reports what that result looks
+// like *now*: its encoding and what it does (deterministic encapsulation for
+// KEM keys, the verdict on a signature made before for signature keys).  Nil
+// if the object has no Public().
+func siblingProbe(k any) func() []byte {
+	obj := k
+	if w, ok := k.(interface{ inner() any }); ok {
+		obj = w.inner()
+	}
+	m := reflect.ValueOf(obj).MethodByName("Public")
+	if !m.IsValid() || m.Type().NumIn() != 0 || m.Type().NumOut() != 1 {
+		return nil
+	}
+	pub := m.Call(nil)[0].Interface()
+	if pub == nil {
+		return nil
+	}
+	msg := []byte("c11 sibling probe")
+	var sig []byte
+	if sk, ok := obj.(sign.PrivateKey); ok {
+		sig = sk.Scheme().Sign(sk, msg, nil)
+	}
+	return func() []byte {
+		var out []byte
+		if mb, ok := pub.(encoding.BinaryMarshaler); ok {
+			b, _ := mb.MarshalBinary()
+			out = append(out, b...)
+		}
+		if p, ok := pub.(kem.PublicKey); ok {
+			sch := p.Scheme()
+			ct, ss, _ := sch.EncapsulateDeterministically(p, make([]byte, sch.EncapsulationSeedSize()))
+			out = append(append(out, ct...), ss...)
+		}
+		if p, ok := pub.(sign.PublicKey); ok && sig != nil {
+			if p.Scheme().Verify(p, msg, sig, nil) {
+				out = append(out, 1)
+			} else {
+				out = append(out, 0)
+			}
+		}
+		return out
+	}
+}
 
 func reuseViol(what, class string, kv ...any) {
 	lib.Violation("C11:"+class+":"+what, monReuse, lib.D(kv...))
@@ -53,9 +101,22 @@ func reuseBin(what string, used, fresh binKey, encA, encB []byte, use func(k any
 		return
 	}
 	_ = use(used) // fill every cache with A's data
+	// objects handed out by the used object while it held A (Public()) are
+	// separate values: reloading the object must not change them
+	probe := siblingProbe(used)
+	var before []byte
+	if probe != nil {
+		before = probe()
+	}
 	if err := used.UnmarshalBinary(encB); err != nil {
 		reuseViol(what, "own-encoding-refused", "err", err)
 		return
+	}
+	if probe != nil {
+		lib.Count("reuse:sibling-probes")
+		if after := probe(); !lib.Eq(before, after) {
+			reuseViol(what, "handed-out-object-changed-by-reload", "before", before, "after", after, "encA", encA, "encB", encB)
+		}
 	}
 	if err := fresh.UnmarshalBinary(encB); err != nil {
 		reuseViol(what, "own-encoding-refused", "err", err)
@@ -408,6 +469,7 @@ type unpacker[T any] struct {
 }
 
 func (u *unpacker[T]) UnmarshalBinary(b []byte) error { return u.f(b, &u.k) }
+func (u *unpacker[T]) inner() any                     { return &u.k }
 func (u *unpacker[T]) MarshalBinary() ([]byte, error) {
 	return any(&u.k).(encoding.BinaryMarshaler).MarshalBinary()
 }
@@ -416,6 +478,7 @@ func unp[T any](f func([]byte, *T) error) *unpacker[T] { return &unpacker[T]{f: 
 type mlkemSK768 struct{ k mlkem768.PrivateKey }
 
 func (u *mlkemSK768) UnmarshalBinary(b []byte) error { return u.k.Unpack(b) }
+func (u *mlkemSK768) inner() any                     { return &u.k }
 func (u *mlkemSK768) MarshalBinary() ([]byte, error) { return u.k.MarshalBinary() }
 
 type mlkemPK768 struct{ k mlkem768.PublicKey }
@@ -429,4 +492,5 @@ type oprfSK struct {
 }
 
 func (u *oprfSK) UnmarshalBinary(b []byte) error { return u.k.UnmarshalBinary(u.su, b) }
+func (u *oprfSK) inner() any                     { return &u.k }
 func (u *oprfSK) MarshalBinary() ([]byte, error) { return u.k.MarshalBinary() }
